@@ -361,6 +361,26 @@ class Opaque:
         return "Opaque(%s)" % (self.src or self.why)
 
 
+class ConflictV:
+    """a list whose length depends on the path taken: `lens` are the alternatives, `notes` say which test decides"""
+
+    def __init__(self, lens, notes):
+        self.lens = frozenset(lens)
+        self.notes = tuple(notes)
+
+    def __eq__(self, o):
+        return isinstance(o, ConflictV) and (self.lens, self.notes) == (o.lens, o.notes)
+
+    def __hash__(self):
+        return hash(("cf", self.lens, self.notes))
+
+    def __repr__(self):
+        return "Conflict(%s)" % sorted(map(repr, self.lens))
+
+    def shifted(self, d):
+        return ConflictV([l + d for l in self.lens], self.notes)
+
+
 class ElemV:
     """an element of a symbolic container, identified by a stable key: the key / value of `the current item`
     of a dict that a loop runs over (K<d>, V<d>), and subscripts of those (V<d>[1][0])"""
@@ -420,6 +440,8 @@ class Interp:
         self.depth = 0
         self.fresh = itertools.count(1)
         self.memo = {}
+        self._join_ctx = None  # (line, test text) of the `if` whose branches are being joined
+        self.conflicts = {}  # fresh-symbol atom -> description of a path-dependent list length
 
     # -- helpers -------------------------------------------------------------
     def fresh_sym(self, hint):
@@ -566,6 +588,13 @@ class Interp:
                 return SeqV(sa, a.kind if a.kind == b.kind else "list")
         if isinstance(a, IntV) and isinstance(b, IntV) and simplify(a.lin, self.facts) == simplify(b.lin, self.facts):
             return a
+        if isinstance(a, (SeqV, ConflictV)) and isinstance(b, (SeqV, ConflictV)) and self._join_ctx is not None:
+            la_ = a.lens if isinstance(a, ConflictV) else {simplify(a.len, self.facts)}
+            lb_ = b.lens if isinstance(b, ConflictV) else {simplify(b.len, self.facts)}
+            notes = (a.notes if isinstance(a, ConflictV) else ()) + (b.notes if isinstance(b, ConflictV) else ())
+            if len(la_ | lb_) <= 6 and not any(l.uncertain() for l in la_ | lb_):
+                note = "line %s: `%s`" % self._join_ctx
+                return ConflictV(la_ | lb_, notes if note in notes else notes + (note,))
         return self.fresh_sym(hint.split(" ")[-1])
 
     # -- expressions ---------------------------------------------------------
@@ -1079,6 +1108,14 @@ class Interp:
                     cur = env[tgt.id]
                 elif pf.is_self_attr(tgt) and tgt.attr in self.attrs:
                     cur = self.attrs[tgt.attr]
+                if isinstance(cur, ConflictV) and len(v.args) == 1 and v.func.attr == "append":
+                    self.eval(v.args[0], env, owner, mod)
+                    new = cur.shifted(1)
+                    if isinstance(tgt, ast.Name):
+                        env[tgt.id] = new
+                    else:
+                        self.attrs[tgt.attr] = new
+                    return env
                 if isinstance(cur, (SeqV, LitList)) and len(v.args) == 1:
                     ln = self.as_len(cur)
                     if v.func.attr == "append":
@@ -1153,10 +1190,15 @@ class Interp:
             if all(died):
                 raise Raised("both branches raise")
             live = [a for a in attr_outs if a is not None]
-            self.attrs = live[0]
-            for other in live[1:]:
-                self.attrs = self.join_env(self.attrs, other)
-            return self.join_env(outs[0], outs[1])
+            saved_ctx = self._join_ctx
+            self._join_ctx = (getattr(st, "lineno", "?"), pf.src(st.test)[:60])
+            try:
+                self.attrs = live[0]
+                for other in live[1:]:
+                    self.attrs = self.join_env(self.attrs, other)
+                return self.join_env(outs[0], outs[1])
+            finally:
+                self._join_ctx = saved_ctx
         if isinstance(st, (ast.For, ast.AsyncFor)):
             return self.loop(st, env, rets, owner, mod)
         if isinstance(st, ast.While):
@@ -1263,6 +1305,13 @@ class Interp:
                 kind, base = tracked[name]
                 after = out.get(name)
                 delta = None
+                if kind == "seq" and isinstance(after, ConflictV):
+                    sym = self.fresh_sym(name)
+                    self.conflicts[next(iter(sym.as_len.atoms()))] = {
+                        "variable": name, "loop_line": getattr(st, "lineno", "?"),
+                        "per_iteration": sorted(repr(l) for l in after.lens), "decided_by": list(after.notes)}
+                    new_env[name] = sym
+                    continue
                 if kind == "seq" and isinstance(after, SeqV):
                     delta = simplify(after.len, self.facts)
                 elif kind == "int" and isinstance(after, IntV):
@@ -1329,7 +1378,8 @@ def construct(prog, mod, cls, fixed):
             args = []
             for a in fn.args.args[1:]:
                 if a.arg in it.fixed:
-                    args.append(StrV(it.fixed[a.arg]))
+                    fv = it.fixed[a.arg]
+                    args.append(ConstV(fv) if isinstance(fv, bool) else StrV(fv))
                 else:
                     args.append(Poly.sym(a.arg))
             try:
@@ -1387,7 +1437,11 @@ def analyse_class(prog, mod, cls, methods=SETTINGS_LEN_METHODS, count_attr="nfea
                 else:
                     v = it.call(rr[2], rr[1], rr[0], {}, [])
                 ln = it.as_len(v)
-                if ln is None:
+                if isinstance(v, ConflictV):
+                    cfg.lengths[m] = ("conflict", {"variable": "<returned list>", "loop_line": None,
+                                                   "per_iteration": sorted(repr(l) for l in v.lens),
+                                                   "decided_by": list(v.notes)})
+                elif ln is None:
                     cfg.lengths[m] = ("notcomparable", "result has no length form: %r" % (v,))
                 else:
                     cfg.lengths[m] = simplify(ln, it.facts)
